@@ -267,5 +267,130 @@ def check_C03(ctx):
     return ctx.finish()
 
 
-CHECKS = {"C18": check_C18, "C19": check_C19, "C02": check_C02, "C03": check_C03, "C13": check_C13}
+
+# --------------------------------------------------------------------------------------
+# session properties: C07 C08 C09 C10 C15 share the session correspondence run
+# --------------------------------------------------------------------------------------
+def run_suite_with_model(ctx, facts, suite, args, timeout=3000):
+    d = os.path.join(core.WORK, "%s-%s-%d" % (suite, ctx.pid, os.getpid()))
+    os.makedirs(d, exist_ok=True)
+    rc, rep, out, err = run_harness([suite, "-seed", str(ctx.seed), "-dir", d] + args, timeout=timeout)
+    rows = []
+    if rep is None:
+        ctx.violation("harness-crash", {"what": "%s suite crashed: the process running the library died (a handler result, callback or input must never do that)" % suite,
+                                        "stdout": tail(out, 10), "stderr": tail(err, 40)}, found_input=False)
+    elif facts.get("ocaml_ok"):
+        run_model(os.path.join(d, "cases.txt"), os.path.join(d, "model.txt"))
+        rd = lambda f: open(os.path.join(d, f), errors="replace").read().split("\n")
+        cases, impl, model, meta = rd("cases.txt"), rd("impl.txt"), rd("model.txt"), rd("meta.txt")
+        for i in range(len(cases) - 1):
+            rows.append((meta[i], cases[i], impl[i], model[i] if i < len(model) else "model-missing"))
+    import shutil
+    shutil.rmtree(d, ignore_errors=True)
+    return rep, rows
+
+
+def strip_call(e):
+    # call:sid:sa:ra:op:payload -> call:op:payload
+    p = e.split(":", 5)
+    return "call:%s:%s" % (p[4], p[5]) if len(p) == 6 else e
+
+
+SESSION_PROJ = {
+    "C07": lambda e: e if e.startswith(("wrote", "close")) else None,
+    "C08": lambda e: strip_call(e) if e.startswith("call") else (e if e.startswith("wrote") else None),
+    "C09": lambda e: e if e.startswith(("sa:", "ra:", "call")) else ("wrote" if e.startswith("wrote") else ("close" if e == "close" else None)),
+    "C10": lambda e: strip_call(e) if e.startswith("call") else ("wrote" if e.startswith("wrote") else ("close" if e == "close" else None)),
+    "C15": lambda e: e if e in ("armr", "armw", "close") else ("wrote" if e.startswith("wrote") else None),
+}
+SESSION_KINDS = {
+    "C07": ("stuck", "unanswered-open", "timestamp"),
+    "C08": ("serve-error", "serve-stuck"),
+    "C09": (),
+    "C10": ("not-closed", "goroutine-leak", "stuck", "serve-stuck"),
+    "C15": ("deadline",),
+}
+SESSION_WHAT = {
+    "C07": "responses written / connection closing differ from the model: a request was not answered exactly once, in order, by a response that answers it",
+    "C08": "handler invocations or per-item results differ from the model",
+    "C09": "authentication gating or the context seen by handlers differs from the model",
+    "C10": "reaction to the byte stream (handler calls, responses, close) differs from the model",
+    "C15": "deadline arming relative to reads/writes differs from the model",
+}
+
+
+def session_common(ctx, n_quick, n_thorough):
+    facts = prepare(ctx)
+    broken = None
+    if not facts["prop_ok"]:
+        broken = theorem_broken(ctx, facts, "Properties/%s.v no longer checks" % ctx.pid)
+    if not facts.get("harness_ok"):
+        ctx.violation("harness-build", {"what": "harness does not build against the current tree", "log": tail(facts.get("harness_log", ""))}, found_input=False)
+        return facts, None, [], broken
+    if not facts.get("ocaml_ok"):
+        broken = broken or {"what": "extracted model does not build", "log": tail(facts.get("ocaml_log", ""))}
+    n = n_quick if ctx.tier == "quick" else n_thorough
+    rep, rows = run_suite_with_model(ctx, facts, "session", ["-n", str(n)])
+    proj = SESSION_PROJ[ctx.pid]
+    bad = 0
+    for g, cmd, impl, model in rows:
+        pi = [x for x in (proj(e) for e in impl.split(" ; ")) if x is not None]
+        pm = [x for x in (proj(e) for e in model.split(" ; ")) if x is not None]
+        if pi != pm:
+            bad += 1
+            if bad <= 4:
+                k = next((i for i in range(min(len(pi), len(pm))) if pi[i] != pm[i]), min(len(pi), len(pm)))
+                ctx.violation("trace", {"what": SESSION_WHAT[ctx.pid], "case": cmd,
+                                        "first_difference_at_event": k,
+                                        "implementation": short(pi[k], 1500) if k < len(pi) else "<end of trace>",
+                                        "model": short(pm[k], 1500) if k < len(pm) else "<end of trace>",
+                                        "implementation_trace": short(impl, 3000), "model_trace": short(model, 3000)})
+    if rep:
+        ctx.cov["evaluations"] = len(rows)
+        ctx.cov["distinct_nontrivial"] = rep["distinct_nontrivial"]
+        ctx.cov["traces_validated_against_impl"] = len(rows)
+        ctx.cov["rule"] = rep["rule"]
+        ctx.cov["distribution"] = rep.get("distribution")
+        ctx.cov["samples"] += rep.get("samples", [])
+        for v in rep["violations"]:
+            if v["kind"] in SESSION_KINDS[ctx.pid]:
+                ctx.violation(v["kind"], v)
+    return facts, rep, rows, broken
+
+
+SESSION_ASSUME = [
+    "Session.v is a hand-written model of Server.serve/handleBatch/handleWrapped/handleDiscoverVersions; it is tied to /repo by running the real Server.Serve on in-memory connections with scripted handlers and the extracted model on the same configuration, script and bytes (counts in coverage)",
+    "goroutines, net.Conn, recover, time.Now are modelled, not verified; sessions of one server are modelled as independent (isolation between concurrent connections is observed by the concurrent cases of the harness)",
+    "callbacks and handlers do not mutate the *SessionContext / *RequestContext they are handed (user code)",
+] + CODEC_ASSUME
+
+
+def make_session_check(pid, nq, nt, extra=None):
+    def chk(ctx):
+        facts, rep, rows, broken = session_common(ctx, nq, nt)
+        ctx.assumptions += SESSION_ASSUME
+        if extra and rep is not None:
+            extra(ctx, facts)
+        if broken and not ctx.violations:
+            ctx.violation("theorem", broken, found_input=False)
+        return ctx.finish()
+    return chk
+
+
+def timing_extra(ctx, facts):
+    rc, rep, out, err = run_harness(["timing", "-seed", str(ctx.seed)] + (["-long"] if ctx.tier == "thorough" else []), timeout=600)
+    if rep is None:
+        ctx.violation("timing-crash", {"what": "timing suite crashed", "stderr": tail(err)}, found_input=False)
+        return
+    ctx.cov["timing_scenarios"] = rep["evaluations"]
+    ctx.cov["evaluations"] += rep["evaluations"]
+    ctx.cov["samples"] += rep.get("samples", [])[:2]
+    for v in rep["violations"][:4]:
+        ctx.violation("timing", v)
+
+
+CHECKS = {"C18": check_C18, "C19": check_C19, "C02": check_C02, "C03": check_C03, "C13": check_C13,
+          "C07": make_session_check("C07", 150, 3000), "C08": make_session_check("C08", 150, 3000),
+          "C09": make_session_check("C09", 150, 3000), "C10": make_session_check("C10", 150, 3000),
+          "C15": make_session_check("C15", 100, 1500, timing_extra)}
 
